@@ -79,7 +79,7 @@ func (m *machine) oneShotCheck(extra ...*Term) SatResult {
 	sb.WriteString("(assert " + lets.String() + conj.String() + strings.Repeat(")", nlets) + ")\n")
 	sb.WriteString("(check-sat)\n")
 	argv0 := "z3"
-	if len(m.E.cfg.SolverArgv) > 0 {
+	if len(m.E.cfg.SolverArgv) > 0 && m.E.cfg.SolverArgv[0] != "lib" {
 		argv0 = m.E.cfg.SolverArgv[0]
 	}
 	cmd := exec.Command(argv0, "-in", "-T:"+strconv.Itoa(oneShotTimeoutS))
